@@ -332,6 +332,16 @@ def exec_roundtrip(job):
                     buf.seek(0)
                     back = r(buf)
                 else:
+                    # the same path first holds OTHER content (one pose more, other values), is read, and is then rewritten: the second
+                    # read must return the second content (nothing remembered per path)
+                    K = min(N, 50) + 1
+                    okw = {"positions_xyz": np.array([[float(k), v(k + 3), -1.5] for k in range(K)]),
+                           "orientations_quat_wxyz": np.tile([1.0, 0.0, 0.0, 0.0], (K, 1))}
+                    other = PoseTrajectory3D(timestamps=np.arange(K, dtype=float) + 7.0, **okw) if c["kind"] == "traj" else PosePath3D(**okw)
+                    w(path, other)
+                    first = r(path)
+                    if first.num_poses != K:
+                        lost += 1
                     w(path, traj)
                     back = r(path)
                 if fmt == "tum":
@@ -341,6 +351,8 @@ def exec_roundtrip(job):
                     lost += cmp([np.asarray(p)[:3] for p in back.poses_se3], [np.asarray(p)[:3] for p in traj.poses_se3])
                 nb = back.num_poses
             elif fmt in ("res", "res_traj"):
+                earlier = result.Result()            # another result of the same process that does carry a trajectory
+                earlier.add_trajectory("earlier", PosePath3D(poses_se3=[np.eye(4), np.eye(4)]))
                 res = result.Result()
                 res.info = {"title": "APE äöü ☃ 中文", "est_name": "ést", "label": "l (m)"}
                 res.stats = {"rmse": v(1), "mean": v(2), "max": v(3), "sse": v(4)}
@@ -363,6 +375,7 @@ def exec_roundtrip(job):
                     fi.save_res_file(path, res)
                     back = fi.load_res_file(path, load_trajectories=True)
                 type_same = back.info == res.info and set(back.stats) == set(res.stats) and set(back.np_arrays) == set(res.np_arrays)
+                type_same = type_same and set(back.trajectories) == ({"a_longer_first", "est", "z_path"} if fmt == "res_traj" else set())
                 for k in res.stats:
                     lost += cmp([back.stats.get(k, float("nan"))], [res.stats[k]])
                 for k in res.np_arrays:
